@@ -35,9 +35,9 @@ func (t *tables) url(in string) {
 		return
 	}
 	u, err := url.Parse(in)
-	v := VL(VB([]byte(in)), VS("err"), VB(nil), VB(nil), VB(nil))
+	v := VL(VB([]byte(in)), VS("err"), VB(nil), VB(nil), VB(nil), VB(nil))
 	if err == nil {
-		v = VL(VB([]byte(in)), VS("ok"), VB([]byte(u.Path)), VB([]byte(u.RawQuery)), VB([]byte(u.Host)))
+		v = VL(VB([]byte(in)), VS("ok"), VB([]byte(u.Path)), VB([]byte(u.RawQuery)), VB([]byte(u.Host)), VB([]byte(u.EscapedPath())))
 	}
 	t.urls[in] = v
 	t.urlsK = append(t.urlsK, in)
@@ -112,7 +112,11 @@ func headerLines(f []byte) (first string, lines [][2][]byte, ok bool) {
 	}
 }
 
-var methods = []string{"/a/b", "/", "/home/test", "/a/b?x=1&y=%41", "/p?k=v&k=w&=", "/a b", "/a%20b", "http://host.example/p/q", "//h/p", "", "a/b", "/ü", "/a?b?c", "/x#frag", "/a\tb", ":bad:", "/a;b=c", "/%zz"}
+var methods = []string{"/a/b", "/", "/home/test", "/a/b?x=1&y=%41", "/p?k=v&k=w&=", "/a b", "/a%20b", "http://host.example/p/q", "//h/p", "", "a/b", "/ü", "/a?b?c", "/x#frag", "/a\tb", ":bad:", "/a;b=c", "/%zz",
+	// paths that need escapes in the request line: blanks, non-ASCII and invalid UTF-8 bytes raw;
+	// '?', '#', '%', control bytes, 0x7f, a second leading slash, '+' as percent escapes
+	"/a  b c", "/ a", "/a ", "/\xff\xfe", "/\xe4\xb8\xad/x y", "/a%3Fb", "/a%23b", "/a%25b", "/a%01b", "/a%00", "/a%0Ab", "/a%0D%0Ab",
+	"/a%7Fb", "/%2Fh/p", "/a%2Bb", "/a+b", "/%E4%B8%AD", "/a%FFb", "/a\x7fb", "/a\x01b", "/a%", "/a%2", "/a\"b", "/a\\b", "/a%20b%3Fc%23d%25e"}
 var metaKeys = []string{"X-Trace", "peer_id", "a", "Abc-Def", "x-lower", "X_Under", "K", "Tp-Meta", "Content-Type", "X-Seq", "Host", "Accept-Encoding", "User-Agent", "bad key", "Bad:Key", "", "Üni"}
 var metaVals = []string{"v", "", "110", " lead", "trail ", "a b", "a:b", "a\r\nb", "a\nb", "x=y&z", "%41", "\"q\"", "ünï", "\tt\t"}
 
@@ -131,7 +135,7 @@ func genHTTP(r *rand.Rand, st *Stats) (*c05lib.GenMsg, []byte) {
 		g.Seq = int32(r.Uint32())
 	}
 	g.Mtype = []byte{1, 1, 2, 2, 4, 5, 3, 0, 200}[r.Intn(9)]
-	if r.Intn(3) > 0 {
+	if r.Intn(3) == 0 {
 		g.Method = []byte(methods[r.Intn(5)])
 	} else {
 		g.Method = []byte(methods[r.Intn(len(methods))])
@@ -208,8 +212,13 @@ func inLimits(g *c05lib.GenMsg, ids []byte) bool {
 	}
 	switch g.Mtype {
 	case 1, 4:
+		// the service method is a URI reference for this protocol: supported are the methods that
+		// are a path only - either their own path (blanks, non-ASCII bytes included: the request
+		// line carries the escaped form) or the escaped form of a path ("/a%3Fb" is the path
+		// "/a?b"); what must arrive is that path
 		u, err := url.Parse(string(g.Method))
-		if err != nil || u.Path != string(g.Method) || u.RawQuery != "" || u.Host != "" || bytes.ContainsAny(g.Method, " \n") || len(g.Method) == 0 {
+		if err != nil || u.RawQuery != "" || u.Host != "" || len(u.Path) == 0 ||
+			(u.Path != string(g.Method) && u.EscapedPath() != string(g.Method)) {
 			return false
 		}
 		return !g.HasSt || g.Code == 0 // a request carries no status
@@ -226,7 +235,7 @@ func main() {
 	r := cfg.Rng
 	RegTestFilters()
 	st := NewStats("C05", cfg)
-	st.Rule = "httproto: (a) pack/unpack of generated requests and responses (seq extremes, message types call/reply/auth/unsupported, paths with and without query / host / escapes, metadata on header-like and odd keys, OK and business-error statuses, the five mapped codecs and others, all byte values in the body, gzip / double gzip / non-gzip pipes) under a size limit (sometimes tight), unpacked through 3 chunkings; (b) streams of 1-5 back-to-back frames; (c) hostile HTTP text (bad status lines, headers without colon, odd Content-Length / X-Seq values, missing blank line, truncation). Library behaviour (header lines written by net/http, url.Parse, status JSON, gzip) is recorded into the case"
+	st.Rule = "httproto: (a) pack/unpack of generated requests and responses (seq extremes, message types call/reply/auth/unsupported, paths with and without query / host / percent escapes, paths that need escaping in the request line (blanks, non-ASCII and invalid UTF-8 bytes; '?', '#', '%', control bytes as escapes) and must arrive as the path the sender's url.Parse assigned, metadata on header-like and odd keys, OK and business-error statuses, the five mapped codecs and others, all byte values in the body, gzip / double gzip / non-gzip pipes) under a size limit (sometimes tight), unpacked through 3 chunkings; (b) streams of 1-5 back-to-back frames; (c) hostile HTTP text (bad status lines, headers without colon, odd Content-Length / X-Seq values, missing blank line, truncation). Library behaviour (header lines written by net/http, url.Parse, status JSON, gzip) is recorded into the case"
 	w := NewCaseWriter(cfg)
 	distinct := DistinctSet{}
 	for i := 0; i < cfg.N; i++ {
@@ -517,7 +526,13 @@ func httpOracle(st *Stats, i int, g *c05lib.GenMsg, ids []byte, fr []string, end
 		return
 	}
 	tp := strings.Split(strings.TrimSuffix(parts[4][endMeta+2:], "))"), " ")
-	want := []string{VZ(int64(g.Seq)), VB([]byte{g.Mtype}), VB(g.Method)}
+	wantMethod := g.Method
+	if g.Mtype == 1 || g.Mtype == 4 {
+		if u, err := url.Parse(string(g.Method)); err == nil {
+			wantMethod = []byte(u.Path) // = the method itself unless it is written with percent escapes
+		}
+	}
+	want := []string{VZ(int64(g.Seq)), VB([]byte{g.Mtype}), VB(wantMethod)}
 	for k := 0; k < 3; k++ {
 		if parts[k] != want[k] {
 			st.Fail(i, "roundtrip", fmt.Sprintf("field %d differs: got %s want %s", k, parts[k], want[k]), human)
